@@ -53,6 +53,33 @@ chk("C17", "exploration",
     "Metamorphic: 10 scenarios (all relaying paths, pin by response, in-dialog request, pin lifetime by Expires, NOTIFY terminated, SUBSCRIBE response) x every single respelling of every header of the subject message (thorough: every pair) x every re-layout of the Via/Route/Record-Route lists; base and variant runs on identically prepared worlds must agree on all destinations (incl. follow-up probes of the pin), decoded routing stacks, remaining fields, Content-Length and body.",
     TRUST, "exhaustive enumeration of spelling/layout variants, differential (metamorphic) oracle on the real code", "§4 C17")
 
+chk("C04", "model_checking",
+    "Explicit-state BFS by replay over histories (depth 6, thorough 8) of two INVITE dialogs and one backend-issued SUBSCRIBE dialog over three backends: unrelated requests, establishing responses (180 with Expires / 200 / 486) from the chosen backend's address, in-dialog requests of 8 methods in both directions, backend-issued SUBSCRIBE and its answer; four identifier flavours (plain, '-' in tags with equal decorated URIs, tel:/urn: parties, TCP backends). Every in-dialog request must reach exactly the answering backend, every other request exactly one registered backend.",
+    TRUST + " State key = reference pins + dialog table + rotation cursor (client-transaction entries excluded with a soundness argument in the evidence).",
+    "explicit-state BFS over event histories on the real code, reference pin map", "§4 C04")
+chk("C08", "exploration",
+    "Complete enumerations over a 12-message corpus on UDP and TCP, each followed by a sentinel request: every prefix, every single-byte substitution / insertion / deletion at every offset, every field-level hostile substitution (thorough: every pair), size extremes up to 64 KiB; oracle: no panic in any proxy goroutine, no deadlock or stall, allocation bounded by 1 MiB + 256 x input length, sentinel relayed afterwards. Workers run under an address-space limit with a write-ahead journal so that an unrecoverable runtime abort is attributed to its input and the enumeration resumes.",
+    TRUST + " The coverage-guided half of the quantifier belongs to another technique family and is not claimed.",
+    "exhaustive enumeration of truncations, single edits and hostile field values through the whole pipeline in a deterministic simulation", "§4 C08")
+chk("C10", "model_checking",
+    "All sequences of 1-3 (thorough 1-4) datagrams over a 12-shape alphabet (truncated at every structural place, over/under-declared lengths, 60 KiB, two-in-one), delivered with quiescence in between (LIFO pool recycles the dirty buffer) and back-to-back, from one and two sources; differential oracle against the same datagram alone on a fresh world, plus never-relay for incomplete datagrams; plus (race tier) every interleaving of the receive/parse/loop goroutines with <=2 deviations under the Go race detector.",
+    TRUST, "exhaustive history enumeration with differential oracle + deviation-bounded schedule search under the race detector", "§4 C10")
+chk("C11", "exploration",
+    "Streams of 1-3 (thorough 1-5, plus a fixed 8-message stream) messages over 17 shapes through the REAL TCPServerTransport.receiveMessage on a simulated connection; segmentations: none, 1-byte segments, ALL single cuts and ALL pairs of cuts for short streams, all single cuts plus all pairs around line ends / body boundaries / 4096-multiples for long ones; and the single cuts end to end through a full proxy. The delivered message list must equal the sent list for every segmentation.",
+    TRUST + " A short read equals an additional cut.", "exhaustive enumeration of segmentations on the real receive loop", "§4 C11")
+chk("C12", "model_checking",
+    "Explicit-state BFS by replay (depth 6 / 2 connections; thorough depth 8 / 3 connections): request and 180/200/second-200 events of two transactions per connection in every order, crossed with 40 flavours (received on/off x Via sent-by same/different/host-table name/unknown name/true port x rport x UDP/TCP backends): every provisional and first final response is written on the request's connection, on no other, without dialling; plus (race tier) schedules of the per-connection receive goroutines.",
+    TRUST, "explicit-state BFS over event histories on the real code + schedule search", "§4 C12")
+chk("C15", "model_checking",
+    "Explicit-state BFS by replay on the VIRTUAL clock (dialogTimeout 10 s via YAML, via DEFAULT_DIALOG_TIMEOUT and via the real main()): establishing responses with Expires none/5/30/2^31-1, probes of 4 consecutive in-dialog requests, BYE answered 200/481/503, NOTIFY active/terminated/terminated;reason, clock steps, unrelated traffic with huge Expires; pinned before the earliest, load-balanced after the latest promised expiry or after termination; table invariant under continuous traffic; two 200-dialog long runs (one poisoned by a huge Expires).",
+    TRUST + " Expiry is decided on the virtual clock only (no wall-clock oracle).", "explicit-state BFS over event/clock histories on the real code with a virtual clock", "§4 C15")
+chk("C19", "model_checking",
+    "Explicit-state BFS by replay TO A FIXPOINT over resolution outcomes (failure, every non-empty subset of 3-4 addresses in two orders) for one host name, udp and tcp backends, successful and failed initial resolution, and to depth 4-5 for two host names feeding one rotation; the real periodic resolver goroutine is driven by virtual-clock steps; after every step dispatches reach exactly the resolved set, the attribution index equals it, fabricated responses bind a dialog iff their source is a current backend, vanished backends are closed.",
+    TRUST + " LookupIP answers are scripted (simulated DNS).", "explicit-state BFS to a fixpoint over scripted environment answers on the real resolver/rotation/proxy", "§4 C19")
+chk("C20", "fault_enumeration",
+    "The complete fault product as environment answers: cached inbound connection {absent, healthy, reset before send 0/1/2} x reconnectable path {fresh, stale, absent} x every dial plan of up to three outcomes over {accepted, refused, accepted-but-writes-fail} x working connection reset before send 0/1/2 x 1-3 sends, for the fail-over transport obtained from the real ClientTransportMgr, a directly built one, TCPBackend, and end to end (responses to a TCP client, requests to a TCP backend): nil iff exactly one complete delivery, success whenever a path works, no write on a failed connection, no needless dial, no hang, no crash.",
+    TRUST + " A write on a reset connection fails at once (kernel-delayed RST is outside the model).", "exhaustive fault-pattern enumeration through a simulated network with scripted dial/write faults", "§4 C20")
+
 ALL = ["C%02d" % i for i in range(1, 21)]
 man = {
     "version": 1,
